@@ -125,12 +125,16 @@ def setExpiry (c : Ctx) (s : State) (k : Bytes) (exp : Option Int) : Option Stat
   let vol := if d.vol.contains k then d.vol else d.vol ++ [k]
   some { s with dbs := s.dbs.put c.db ⟨d.store.put k ⟨v, exp⟩, vol⟩ }
 
-/-- Flush :80 on one database: the store map is cleared, the volatile slice is `clear`ed in place
-    (cells zeroed, length kept). Dereferencing the per-database cache of an absent database panics. -/
+/-- what deleteKey would deduct from `memUsed` for the keys of one database, one after the other -/
+def Db.cost (d : Db) : Int := (d.store.map fun (ke : Bytes × Entry) => ke.2.getMem + keyMem ke.1).sum
+
+/-- Flush :80 on one database (repaired upstream): the accounted size of every key of the database is deducted
+    from the counter as deleteKey does, the store map is cleared, the volatile slice is replaced by an empty one.
+    A database that was never written to has nothing to flush. -/
 def flushDb (s : State) (db : Nat) : Option State :=
   if !s.hasDb db then some s else
   let d := s.db db
-  some { s with dbs := s.dbs.put db ⟨[], d.vol.map fun _ => []⟩ }
+  some { s with dbs := s.dbs.put db ⟨[], []⟩, mem := s.mem - d.cost }
 
 /-- in-place mutation through the stored pointer (Set.Add/Remove, SortedSet.AddOrUpdate/Remove …):
     no SetValues, no accounting; every key of the selected database holding the same object sees it -/
@@ -170,8 +174,9 @@ def swapDbs (s : State) (d1 d2 : Nat) : State :=
   let s := (s.createDb d1).createDb d2
   { s with conns := s.conns.map fun (id, d) => (id, if d == d1 then d2 else if d == d2 then d1 else d) }
 
+/-- Flush(-1) (repaired upstream): every database is emptied (store and volatile slice) and the counter is reset -/
 def flushAll (s : State) : State :=
-  { s with dbs := s.dbs.map fun (i, d) => (i, (⟨[], d.vol.map fun _ => []⟩ : Db)) }
+  { s with dbs := s.dbs.map fun (i, _) => (i, (⟨[], []⟩ : Db)), mem := 0 }
 
 /-! ### step programs -/
 
